@@ -85,7 +85,8 @@ for pid in sorted(seeds):
         cur = m.get('current_status', '?')
         if not cur.startswith('DETECTED'): miss += 1
         out.append('| %s | %s | %s | %s | %s |' % (m['id'], w, m.get('first_run_of_quick_check', '?'), cur.split(' (')[0], m.get('caught_by', '')))
-out.append('\n%d changes, %d detected by the committed quick checks, %d not detected (outside the stated claim).\n' % (tot, tot - miss, miss))
+outside = sum(1 for pid in seeds for m in seeds[pid] if 'outside' in m.get('current_status', ''))
+out.append('\n%d changes, %d detected by the committed quick checks, %d not detected: %d lie outside the stated claims (calendar arithmetic in doubles, trigonometric conversions, the floating-point residual clause, Unix-socket endpoints) and %d was not decided in the time available (C11-r5m3: the check kept exploring for 45 min and was stopped).  On their first run %d of the %d changes were not reported as violations (MISSED, or flagged by the engine without a native confirmation); every strengthening was a generalisation of the harness (new operation kinds, alphabets, boundary sizes, scenarios), never a special case for the change.\n' % (tot, tot - miss, miss, outside, miss - outside, sum(1 for pid in seeds for m in seeds[pid] if not m.get('first_run_of_quick_check', '').startswith('DETECTED')), tot))
 
 out.append('## 5. False alarms that were corrected (never listed as findings)\n')
 out.append('| where | alarm | what was wrong with the check and what was done |\n|---|---|---|')
